@@ -18,7 +18,7 @@ LEVEL_NOTE = ("Trusted: the seam interposes the libc entry points listed in DESI
 RULE = ("case = generated project x configuration point; one fault-free --check run plus one run per sampled/enumerated "
         "(operation k, action) with action in {fail errno, short, eintr, kill_before, kill_after, sig_before, sig_after}. "
         "Non-trivial = run with a fired fault or a distinct configuration point; distinct = (world, k, action, errno).")
-PROBES = ["old_leftovers", "other_file_system", "odd_argv", "stdout_closed", "tmpdir_missing", "lock_corrupt", "lock_valid", "cache_off", "error_config", "no_missing_refs", "fault_fired", "killed", "signalled"]
+PROBES = ["non_utf8_source", "old_leftovers", "other_file_system", "odd_argv", "stdout_closed", "tmpdir_missing", "lock_corrupt", "lock_valid", "cache_off", "error_config", "no_missing_refs", "fault_fired", "killed", "signalled"]
 ASSUMPTIONS = ["stat/open-for-read/readdir are not modifications"]
 DEADLINE = {"quick": 200, "thorough": 3000}
 
@@ -64,6 +64,11 @@ def gen(rng):
                 mt[q] = old
         wm["mtimes"] = mt
         tags.append("old_leftovers")
+    if rng.random() < 0.2:
+        # an in-scope file in a legacy encoding: a check run reports it and leaves it alone
+        bad = rng.choice([b"\xe9", b"\xff", b"\xc3\x28"])
+        wm["extra"]["proj/src/legacy_enc.rs"] = {"t": "f", "mode": 0o644, "data": b"// caf" + bad + b" legacy\nfn l() { info!(\"[ref: 7] latin " + bad + b"\"); }\n"}
+        tags.append("non_utf8_source")
     err = rng.random() < 0.15
     if err:
         tags.append("error_config")
